@@ -269,6 +269,12 @@ def run(ctx: Ctx):
         g = make_geom(*c)
         u = rng.random((4, nev))
         check_batch(ctx, g, u, "structured")
+    # ---- every small batch size (a layout guess such as "shape[1] == 4" misfires for one size only): each event of the batch
+    # must be the event of ITS column of u (the oracle in check_batch ties every output to its own input column)
+    for c in cfgs[:2]:
+        g = make_geom(*c)
+        for nb_ in range(1, 10):
+            check_batch(ctx, g, rng.random((4, nb_)), "small-batch")
     # ---- call histories on ONE object: throw, positions along the trajectories, throw again with other numbers (other
     # batch size, reversed order), positions again: every answer must describe the most recent throw
     for c in cfgs[: (8 if ctx.thorough else 3)]:
